@@ -17,6 +17,7 @@ RULE = ("components of types OverdampedBrownian, OverdampedBrownian-HighTemperat
         "the same for SpectralDensity with its two constructible types. distinct = (class, function kind, component-type multiset, permutation, bracketing); "
         "non-trivial iff the components are pairwise different functions (max|a-b| > 1e-3 max|a|) and at least two types occur or k >= 3.")
 RULE = RULE + " Round-6 workloads: every expression tree is evaluated outside any units context or inside one of 1/cm, eV, THz, meV."
+RULE = RULE + " Round-7 workloads: a third of the OverdampedBrownian components carries the optional matsubara parameter."
 ASSUMPTIONS = ["additions are performed outside units contexts (the quantifier names unit contexts used for construction)",
                "value-defined functions occur only as right-hand operands and are never part of a left operand that has to be rebuilt",
                "'measured = declared' is claimed for the analytic overdamped types, against the finite-axis value lambda(1-exp(-Tmax/tau)); "
